@@ -49,11 +49,18 @@ type Req struct {
 	Timeout   uint   `json:"timeout,omitempty"`
 	Persist   string `json:"persist,omitempty"`
 	PersistID string `json:"persist_id,omitempty"`
+	// NoAnswer: "" the server answers at once; "silent" the server never answers this request;
+	// "late" the answer is emitted only after the call has returned. In both cases the call runs
+	// with a 200 ms operation timeout and is expected to end in a timeout error.
+	NoAnswer string `json:"no_answer,omitempty"`
+	// TimeoutVia: "op" per-call opoptions.WithTimeoutOps (methods that take options), "channel"
+	// Channel.TimeoutOps set around the call.
+	TimeoutVia string `json:"timeout_via,omitempty"`
 }
 
 // Session is a case descriptor: one NETCONF session of N consecutive requests on one stream.
 type Session struct {
-	Kind    string     `json:"kind"`    // grid | random | sweep | big | hazard (how it was generated)
+	Kind    string     `json:"kind"`    // grid | random | sweep | big | hazard | noanswer (how it was generated)
 	Version string     `json:"version"` // 1.0 | 1.1
 	Via     string     `json:"via"`     // caps: server offers only that version; preferred: server offers both, client option selects
 	Force   bool       `json:"force"`   // options.WithNetconfForceSelfClosingTags
